@@ -4,14 +4,18 @@ from __future__ import annotations
 
 import ast
 
+from ..interp import cval, has_const
 from ..source import norm_text
-from .C08 import linear
-from .common import walk_no_nested
+from .common import linear_atoms, parse_sx, walk_no_nested
+from .geo import under, uniq_events
 
 STE = 'gemdat.transitions._split_transitions_events'
 TS = 'gemdat.transitions.Transitions.split'
 JS = 'gemdat.jumps.Jumps.split'
 TRS = 'gemdat.trajectory.Trajectory.split'
+TRAJ = 'gemdat.trajectory.Trajectory'
+
+_FLIP = {'<': '>', '<=': '>=', '>': '<', '>=': '<=', '==': '==', '!=': '!='}
 
 
 def check(ctx):
@@ -31,172 +35,240 @@ def check(ctx):
     check_traj_split(ctx)
 
 
+# ---------------------------------------------------------------------------------------------------------------- masks
+def mask_constraints(m):
+    """A boolean row mask as a list of (column value, op, bound value) with the bound on the right, or None."""
+    if m is None:
+        return None
+    if m.between is not None:
+        recv, lo, hi, inc = m.between
+        if inc is None:
+            return None
+        lo_op = '>=' if inc in ('both', 'left', True) else '>'
+        hi_op = '<=' if inc in ('both', 'right', True) else '<'
+        return [(recv, lo_op, lo), (recv, hi_op, hi)]
+    if m.bin is not None and m.bin[0] == '&':
+        a, b = mask_constraints(m.bin[1]), mask_constraints(m.bin[2])
+        return None if a is None or b is None else a + b
+    if m.cmp is not None:
+        o, l, r = m.cmp[:3]
+        if l is None or r is None:
+            return None
+        if l.pair_pos is not None and r.pair_pos is None and o in _FLIP:
+            return [(r, _FLIP[o], l)]
+        return [(l, o, r)]
+    return None
+
+
+def edge_sequence_ok(ctx, fi, seq, total_name, what):
+    """The edge sequence is np.linspace(0, hi, n_parts + 1) with hi linear in `total_name`. Returns (status, message)."""
+    if seq is None or seq.linspace is None or len(seq.linspace) < 2 or seq.lin_n is None:
+        return None, 'edge sequence is not np.linspace(lo, hi, n)'
+    lo, hi = seq.linspace[:2]
+    n = seq.lin_n
+    ok_lo = has_const(lo) and cval(lo) == 0
+    hi_l = linear_atoms(parse_sx(hi.sx, full=True)) if hi.sx else ((({}, float(cval(hi))) if has_const(hi) else None))
+    n_l = linear_atoms(parse_sx(n.sx, full=True)) if n.sx else None
+    if hi.sx is None and not has_const(hi) and hi.is_param:
+        hi_l = ({hi.is_param.split(':')[-1]: 1.0}, 0.0)
+    if n.sx is None and n.is_param:
+        n_l = ({n.is_param.split(':')[-1]: 1.0}, 0.0)
+    return ok_lo, hi_l, n_l
+
+
 def check_events(ctx):
     fi = ctx.fn(STE)
-    env = {}
-    for n in ast.walk(fi.node):
-        if isinstance(n, ast.Assign) and len(n.targets) == 1 and isinstance(n.targets[0], ast.Name):
-            env.setdefault(n.targets[0].id, n.value)
-    comps = [n for n in ast.walk(fi.node) if isinstance(n, ast.ListComp)]
-    sel = None
-    for c in comps:
-        g = c.generators[0]
-        if isinstance(g.iter, ast.Call) and norm_text(g.iter.func).endswith('pairwise') and isinstance(g.target, ast.Tuple) and len(g.target.elts) == 2:
-            sel = c
-    if sel is None:
-        ctx.ob('R1', fi, 'part selection', None, 'selection over pairwise(edges) not recognised')
+    it = ctx.entry(STE)
+    inside = under(STE)
+    filters = uniq_events(it, {'row_filter'}, inside)
+    if not filters:
+        ctx.ob('R1', fi, 'part selection', None, 'selection of the rows of one part not recognised')
         return
-    g = sel.generators[0]
-    lo_name, hi_name = (norm_text(e) for e in g.target.elts)
-    edges = norm_text(g.iter.args[0])
-    # the mask
-    mask = None
-    for n in ast.walk(sel.elt):
-        if isinstance(n, ast.BinOp) and isinstance(n.op, ast.BitAnd):
-            mask = n
-    btw = [n for n in ast.walk(sel.elt) if isinstance(n, ast.Call) and isinstance(n.func, ast.Attribute) and n.func.attr == 'between']
-    if mask is None and btw:
-        b = btw[0]
-        a_ = [norm_text(x) for x in b.args]
-        inc = next((k.value for k in b.keywords if k.arg == 'inclusive'), b.args[2] if len(b.args) > 2 else None)
-        incv = inc.value if isinstance(inc, ast.Constant) else ('both' if inc is None else None)
-        if a_[:2] == [lo_name, hi_name] and incv is not None:
-            ok_lo = incv in ('both', 'left', True)
-            ok_hi = incv in ('left', 'neither')
-            ctx.ob('R1', fi, b, ok_lo, 'lower edge inclusive' if ok_lo else 'lower edge exclusive: an event on a part boundary (and at time 0) belongs to no part')
-            ctx.ob('R1', fi, norm_text(b) + ' [upper]', ok_hi, 'upper edge exclusive' if ok_hi else
-                   f'Series.between(..., inclusive={incv!r}) includes the upper edge: an event exactly on a part boundary is counted in two parts')
-            ctx.ob('R1', fi, 'split column', True, 'one column tested')
-            mask = 'between'
-        else:
-            ctx.ob('R1', fi, b, None, 'arguments of between() not recognised')
-            return
-    if mask == 'between':
-        pass
-    elif mask is None or not (isinstance(mask.left, ast.Compare) and isinstance(mask.right, ast.Compare)):
-        ctx.ob('R1', fi, sel.elt, None, 'row mask is not the conjunction of two comparisons')
-        return
-    found = {'lo': None, 'hi': None}
-    cols = set()
-    for c in ((mask.left, mask.right) if mask != 'between' else ()):
-        if len(c.ops) != 1:
+    seqs = []
+    for e in filters:
+        cons = mask_constraints(e['mask'])
+        node = e['node']
+        if cons is None or len(cons) != 2:
+            ctx.ob('R1', e['where'], node, None, 'row mask is not the conjunction of two bound tests')
             continue
-        l, r, op = c.left, c.comparators[0], c.ops[0]
-        lt, rt = norm_text(l), norm_text(r)
-        # normalise to  column OP bound
-        if rt in (lo_name, hi_name):
-            col, bound, o = lt, rt, type(op)
-        elif lt in (lo_name, hi_name):
-            col, bound = rt, lt
-            o = {ast.Lt: ast.Gt, ast.LtE: ast.GtE, ast.Gt: ast.Lt, ast.GtE: ast.LtE}.get(type(op), type(op))
-        else:
+        lo_c = [c for c in cons if c[2] is not None and c[2].pair_pos == 0]
+        hi_c = [c for c in cons if c[2] is not None and c[2].pair_pos == 1]
+        if len(lo_c) != 1 or len(hi_c) != 1 or lo_c[0][2].pair_src != hi_c[0][2].pair_src:
+            ctx.ob('R1', e['where'], node, None, 'lower / upper bound of one consecutive edge pair not recognised')
             continue
-        cols.add(col)
-        found['lo' if bound == lo_name else 'hi'] = (o, c)
-    if mask == 'between':
-        pass
-    elif found['lo'] is None or found['hi'] is None:
-        ctx.ob('R1', fi, mask, None, 'lower / upper bound tests not recognised')
-    else:
-        (olo, clo), (ohi, chi) = found['lo'], found['hi']
-        ok_lo, ok_hi = olo is ast.GtE, ohi is ast.Lt
-        alt = olo is ast.Gt and ohi is ast.LtE  # (start, stop] is complementary too, but loses time 0
-        ctx.ob('R1', fi, clo, ok_lo, 'lower edge inclusive' if ok_lo else
-               ('lower edge exclusive: an event exactly on a part boundary (and at time 0) belongs to no part' if olo is ast.Gt else 'lower bound test is not >='))
-        ctx.ob('R1', fi, chi, ok_hi, 'upper edge exclusive' if ok_hi else
-               ('upper edge inclusive: an event exactly on a part boundary is counted in two parts' if ohi is ast.LtE else 'upper bound test is not <'))
-        ctx.ob('R1', fi, 'split column', len(cols) == 1, 'both tests read the same column' if len(cols) == 1 else f'the two tests read different columns {sorted(cols)}')
+        (cl, olo, blo), (ch, ohi, bhi) = lo_c[0], hi_c[0]
+        seqs.append(blo.pair_seq)
+        ok_lo, ok_hi = olo == '>=', ohi == '<'
+        ctx.ob('R1', e['where'], norm_text(node) + ' [lower]', ok_lo if olo in ('>=', '>') else None, 'lower edge inclusive' if ok_lo else
+               ('lower edge exclusive: an event exactly on a part boundary (and at time 0) belongs to no part' if olo == '>' else 'lower bound test is not >='))
+        ctx.ob('R1', e['where'], norm_text(node) + ' [upper]', ok_hi if ohi in ('<', '<=') else None, 'upper edge exclusive' if ok_hi else
+               ('upper edge inclusive: an event exactly on a part boundary is counted in two parts' if ohi == '<=' else 'upper bound test is not <'))
+        same = cl.col is not None and cl.col == ch.col or (cl.sx is not None and cl.sx == ch.sx)
+        ctx.ob('R1', e['where'], norm_text(node) + ' [column]', True if same else (False if (cl.col and ch.col) else None),
+               'both tests read the same column' if same else f'the two tests read different columns ({cl.col}, {ch.col})')
     # the edge sequence
-    ed = env.get(edges)
-    if ed is None or not (isinstance(ed, ast.Call) and norm_text(ed.func).endswith('linspace') and len(ed.args) >= 3):
-        ctx.ob('R1', fi, f'edges `{edges}`', None, 'edge sequence is not np.linspace(lo, hi, n)')
-    else:
-        lo, hi, cnt = ed.args[:3]
-        lin_hi = linear(hi)
-        lin_n = linear(cnt)
-        ok_lo = isinstance(lo, ast.Constant) and lo.value == 0
+    for seq in seqs[:1]:
+        if seq is None or seq.linspace is None or len(seq.linspace) < 2 or seq.lin_n is None:
+            ctx.ob('R1', fi, 'edge sequence', None, 'edge sequence is not np.linspace(lo, hi, n)')
+            continue
+        lo, hi, n = seq.linspace[0], seq.linspace[1], seq.lin_n
+        ok_lo = has_const(lo) and cval(lo) == 0
+        hi_l = _lin(hi)
+        n_l = _lin(n)
         # last event time is n_states - 2 (a change between frames t and t+1 with t + 1 <= n_states - 1)
-        ok_hi = lin_hi is not None and lin_hi[0] == {'n_states': 1} and lin_hi[1] >= -1
-        ok_n = lin_n is not None and lin_n[0] == {'n_parts': 1} and lin_n[1] == 1
-        ctx.ob('R1', fi, ed, True if (ok_lo and ok_hi and ok_n) else (False if (lin_hi is not None and lin_n is not None) else None),
-               'n_parts + 1 edges from 0 to beyond the last event time' if (ok_lo and ok_hi and ok_n) else
+        ok_hi = hi_l is not None and hi_l[0] == {'n_states': 1.0} and hi_l[1] >= -1
+        ok_n = n_l is not None and n_l[0] == {'n_parts': 1.0} and n_l[1] == 1
+        ok = ok_lo and ok_hi and ok_n
+        ctx.ob('R1', fi, 'edge sequence', True if ok else (False if (hi_l is not None and n_l is not None and set(hi_l[0]) <= {'n_states'} and set(n_l[0]) <= {'n_parts'}) else None),
+               'n_parts + 1 edges from 0 to beyond the last event time' if ok else
                ('edges do not start at 0' if not ok_lo else ('the last edge does not exceed the last possible event time: late events are in no part' if not ok_hi
                                                               else 'number of edges is not n_parts + 1')))
-    # ---- R2
-    copies = isinstance(sel.elt, ast.Call) and isinstance(sel.elt.func, ast.Attribute) and sel.elt.func.attr == 'copy'
-    ctx.ob('R2', fi, sel.elt, True if copies else False, 'selected rows are copied before re-basing' if copies else
-           're-basing writes into a selection of the original event table (modifies the source / SettingWithCopy)')
-    rebased = False
-    for n in ast.walk(fi.node):
-        if isinstance(n, ast.For) and isinstance(n.iter, ast.Call) and norm_text(n.iter.func) == 'zip':
-            args = [norm_text(a).replace(' ', '') for a in n.iter.args]
-            tg = [norm_text(t) for t in n.target.elts] if isinstance(n.target, ast.Tuple) else []
-            for s in ast.walk(n):
-                if isinstance(s, ast.AugAssign) and isinstance(s.op, ast.Sub):
-                    rebased = True
-                    off = norm_text(s.value)
-                    which = dict(zip(tg, args)).get(off)
-                    ok = which == f'{edges}[:-1]'
-                    ctx.ob('R2', fi, s, True if ok else (False if which in (f'{edges}[1:]', edges) else None),
-                           'offset = lower edge of the same part' if ok else
-                           f'times are re-based by `{which}`: the upper edge / a different part (negative or shifted times)')
-    if not rebased:
+    # ---- R2: re-basing
+    writes = [e for e in uniq_events(it, {'column_write'}, inside) if e['frame'] is not None and e['frame'].ty == 'DataFrame' and e['aug']]
+    if not writes:
         ctx.ob('R2', fi, 're-basing', False, 'event times of the parts are not re-based to the start of the part')
+    for e in writes:
+        fr, val = e['frame'], e['value']
+        copied = fr.store == 'fresh' or fr.fresh
+        ctx.ob('R2', e['where'], norm_text(e['node']) + ' [copy]', True if copied else False, 'selected rows are copied before re-basing' if copied else
+               're-basing writes into a selection of the original event table (modifies the source / SettingWithCopy)')
+        off = val.bin[2] if (val is not None and val.bin is not None and val.bin[0] == '-') else None
+        if off is None:
+            ctx.ob('R2', e['where'], e['node'], None, 're-basing is not a subtraction of an offset')
+            continue
+        ok = off.pair_pos == 0
+        ctx.ob('R2', e['where'], e['node'], True if ok else (False if off.pair_pos == 1 or off.pair_seq is not None else None),
+               'offset = lower edge of the same part' if ok else
+               'times are re-based by the upper edge / an edge of a different part (negative or shifted times)')
+
+
+def _lin(v):
+    """(atoms, const) of an integer-valued abstract value from its symbolic text, constant or parameter name."""
+    if v is None:
+        return None
+    if has_const(v) and isinstance(cval(v), (int, float)):
+        return {}, float(cval(v))
+    if v.sx:
+        t = parse_sx(v.sx, full=True)
+        return linear_atoms(t) if t is not None else None
+    if v.is_param:
+        return {v.is_param.split(':')[-1]: 1.0}, 0.0
+    if v.lenof is not None and v.lenof.ty == 'obj':
+        return {'len(self)': 1.0}, 0.0
+    return None
+
+
+# ------------------------------------------------------------------------------------------------- Transitions.split
+def _resolve_piece(fi, it, node):
+    """(symbolic text of the list a piece is taken from, index key) for `L[i]` or a name bound by iterating zip(L0, L1, ...)."""
+    if isinstance(node, ast.Subscript):
+        return it.sx(node.value), it.sx(node.slice)
+    if isinstance(node, ast.Name):
+        for n in ast.walk(fi.node):
+            gens = []
+            if isinstance(n, (ast.For, ast.AsyncFor)):
+                gens = [(n.target, n.iter)]
+            elif isinstance(n, (ast.ListComp, ast.GeneratorExp, ast.SetComp, ast.DictComp)):
+                gens = [(g.target, g.iter) for g in n.generators]
+            for tgt, itx in gens:
+                z = itx
+                tg = tgt
+                if isinstance(z, ast.Call) and norm_text(z.func) == 'enumerate' and z.args and isinstance(tgt, ast.Tuple) and len(tgt.elts) == 2:
+                    z, tg = z.args[0], tgt.elts[1]
+                if isinstance(z, ast.Call) and norm_text(z.func) == 'zip' and isinstance(tg, ast.Tuple) and len(tg.elts) == len(z.args):
+                    for t_, a_ in zip(tg.elts, z.args):
+                        if isinstance(t_, ast.Name) and t_.id == node.id:
+                            return it.sx(a_), f'zip@{z.lineno}'
+    return None, None
 
 
 def check_transitions_split(ctx):
     fi = ctx.fn(TS)
-    env = {}
-    for n in ast.walk(fi.node):
-        if isinstance(n, ast.Assign) and len(n.targets) == 1 and isinstance(n.targets[0], ast.Name):
-            env.setdefault(n.targets[0].id, n.value)
-    want = {
-        'split_states': ('array_split', 'self.states'), 'split_inner_states': ('array_split', 'self.inner_states'),
-        'split_events': ('_split_transitions_events', 'self.events'), 'split_trajectory': ('split', 'self.trajectory'),
-        'split_diff_trajectory': ('split', 'self.diff_trajectory'),
-    }
-    # find the constructor call and map keyword -> source expression
-    cons = [n for n in ast.walk(fi.node) if isinstance(n, ast.Call) and norm_text(n.func) in ('self.__class__', 'Transitions', 'type(self)')]
+    it = ctx.entry(TS)
+    cons = [e for e in it.events if e['tag'] == 'construct' and e['cls'] == 'gemdat.transitions.Transitions' and e['where'] is not None
+            and e['where'].qualname == TS]
+    seen = set()
+    cons = [e for e in cons if not (id(e['node']) in seen or seen.add(id(e['node'])))]
     if not cons:
         ctx.ob('R3', fi, 'part construction', None, 'constructor call not found')
         return
-    c = cons[0]
-    kw = {k.arg: k.value for k in c.keywords}
+    c = cons[0]['node']
+    kw = {k.arg: k.value for k in c.keywords if k.arg}
+    akw = dict(cons[0]['kwargs'])
+    star = akw.pop('**', None)
+    if star is not None:
+        if not star.kw:
+            ctx.ob('R3', fi, c, None, 'pieces are passed through a ** mapping of unknown keys: origin of the pieces not derivable')
+            return
+        for k_, v_ in star.kw.items():
+            akw.setdefault(k_, v_)
+    roles = {'states': ('array_split', 'self.states'), 'inner_states': ('array_split', 'self.inner_states'),
+             'events': ('_split_transitions_events', 'self.events'), 'trajectory': ('split', 'self.trajectory'),
+             'diff_trajectory': ('split', 'self.diff_trajectory')}
     idxs = set()
-    roles = {'states': 'self.states', 'inner_states': 'self.inner_states', 'events': 'self.events', 'trajectory': 'self.trajectory',
-             'diff_trajectory': 'self.diff_trajectory'}
-    for role, src in roles.items():
+    for role, (fn_want, src) in roles.items():
         v = kw.get(role)
-        if v is None:
+        av = akw.get(role)
+        if v is None and av is None:
             ctx.ob('R3', fi, f'{role}=', False, f'`{role}` is not passed to the part')
             continue
-        if not (isinstance(v, ast.Subscript) and isinstance(v.value, ast.Name)):
-            ctx.ob('R3', fi, f'{role}=', None, 'piece is not list[i]')
+        lst = key = None
+        if v is not None:
+            lst, key = _resolve_piece(fi, it, v)
+        if lst is None and av is not None and av.sx:
+            t_ = parse_sx(av.sx, full=True)
+            if isinstance(t_, ast.Subscript):
+                lst, key = norm_text(t_.value), norm_text(t_.slice)
+        origin = parse_sx(lst, full=True) if lst else None
+        if (origin is None or not isinstance(origin, ast.Call)) and av is not None and av.ty == 'obj' and av.sliced_from is not None:
+            # a trajectory piece: identified by the object it was sliced from
+            want = [e_['value'].oid for e_ in it.events if e_['tag'] == 'attr_read' and e_['attr'] == role and e_['where'] is not None
+                    and e_['where'].qualname == TS and e_['value'] is not None and e_['value'].ty == 'obj']
+            others = [e_['value'].oid for e_ in it.events if e_['tag'] == 'attr_read' and e_['attr'] in roles and e_['attr'] != role
+                      and e_['where'] is not None and e_['where'].qualname == TS and e_['value'] is not None and e_['value'].ty == 'obj']
+            if av.sliced_from in want:
+                ctx.ob('R3', fi, f'{role}=', True, f'pieces of {src}')
+            elif av.sliced_from in others:
+                ctx.ob('R3', fi, f'{role}=', False, f'`{role}` receives pieces of another trajectory instead of `{src}`')
+            else:
+                ctx.ob('R3', fi, f'{role}=', None, 'origin of the pieces not recognised')
             continue
-        idxs.add(norm_text(v.slice))
-        origin = env.get(v.value.id)
-        ok = None
-        msg = 'origin of the pieces not recognised'
-        if isinstance(origin, ast.Call):
-            fn = norm_text(origin.func).split('.')[-1]
-            a0 = norm_text(origin.args[0]) if origin.args else (norm_text(origin.func.value) if isinstance(origin.func, ast.Attribute) else '')
-            recv = norm_text(origin.func.value) if isinstance(origin.func, ast.Attribute) else ''
-            subject = a0 if fn in ('array_split', '_split_transitions_events') else recv
-            nparts = [norm_text(a) for a in origin.args] + [norm_text(k.value) for k in origin.keywords]
-            uses_n = 'n_parts' in nparts
-            ok = subject == src and uses_n
-            msg = f'pieces of {src} cut into n_parts' if ok else (
-                f'`{role}` receives pieces of `{subject}` instead of `{src}`' if subject != src else f'`{src}` is not cut into n_parts pieces')
-            if subject != src or not uses_n:
-                ok = False
-        ctx.ob('R3', fi, f'{role}=', ok, msg)
-    ctx.ob('R3', fi, c, len(idxs) == 1, 'all pieces taken at the same index' if len(idxs) == 1 else f'pieces are combined at different indices {sorted(idxs)}')
-    loops = [n for n in ast.walk(fi.node) if isinstance(n, ast.For) and any(x is c for x in ast.walk(n))]
-    for lp in loops[:1]:
-        ok = norm_text(lp.iter).replace(' ', '') == 'range(n_parts)'
-        ctx.ob('R3', fi, lp.iter, True if ok else None, 'exactly n_parts parts are built' if ok else 'loop range not recognised')
-    sites = kw.get('sites')
-    ctx.ob('R3', fi, 'sites=', sites is not None and norm_text(sites) == 'self.sites', 'same sites for every part')
+        if origin is None or not isinstance(origin, ast.Call):
+            ctx.ob('R3', fi, f'{role}=', None, 'origin of the pieces not recognised')
+            continue
+        idxs.add(key)
+        fn = norm_text(origin.func).split('.')[-1]
+        a0 = norm_text(origin.args[0]) if origin.args else ''
+        recv = norm_text(origin.func.value) if isinstance(origin.func, ast.Attribute) else ''
+        subject = a0 if fn in ('array_split', '_split_transitions_events') else recv
+        nparts = [norm_text(a) for a in origin.args] + [norm_text(k.value) for k in origin.keywords]
+        uses_n = 'n_parts' in nparts
+        known_fn = fn in ('array_split', '_split_transitions_events', 'split')
+        ok = subject == src and uses_n and known_fn
+        msg = f'pieces of {src} cut into n_parts' if ok else (
+            f'`{role}` receives pieces of `{subject}` instead of `{src}`' if subject != src else f'`{src}` is not cut into n_parts pieces')
+        ctx.ob('R3', fi, f'{role}=', True if ok else (False if known_fn else None), msg)
+    ctx.ob('R3', fi, c, len(idxs) == 1, 'all pieces taken at the same index' if len(idxs) == 1 else f'pieces are combined at different indices {sorted(map(str, idxs))}')
+    # number of parts built
+    n_ok = None
+    pm = {}
+    for n_ in ast.walk(fi.node):
+        for ch in ast.iter_child_nodes(n_):
+            pm[id(ch)] = n_
+    cur = c
+    while id(cur) in pm:
+        cur = pm[id(cur)]
+        if isinstance(cur, ast.For):
+            t = it.sx(cur.iter).replace(' ', '')
+            n_ok = True if t == 'range(n_parts)' or t.startswith('zip(') else None
+            break
+        if isinstance(cur, (ast.ListComp, ast.GeneratorExp)):
+            t = it.sx(cur.generators[0].iter).replace(' ', '')
+            n_ok = True if t == 'range(n_parts)' or t.startswith('zip(') else None
+            break
+    ctx.ob('R3', fi, 'number of parts', n_ok, 'one part per piece' if n_ok else 'loop over the pieces not recognised')
+    sites = akw.get('sites')
+    ctx.ob('R3', fi, 'sites=', True if (sites is not None and (sites.sx == 'self.sites' or sites.store == 'attr:Transitions.sites' or (sites.is_param or '').endswith('Transitions.__init__:sites'))) else (False if sites is None else None), 'same sites for every part')
 
 
 def check_jumps_split(ctx):
@@ -219,66 +291,75 @@ def check_jumps_split(ctx):
         ctx.ob('R3', fi, f'{k}=', True if ok else False, f'{k} of the source forwarded' if ok else
                f'`{k}` is not forwarded: the parts are analysed with the default setting, so jumps rejected in the whole are counted in the parts '
                f'(part counts exceed the total)')
-    src = [n for n in ast.walk(fi.node) if isinstance(n, ast.Call) and norm_text(n.func) == 'self.transitions.split']
-    ok = bool(src) and any(norm_text(a) == 'n_parts' for s in src for a in list(s.args) + [k.value for k in s.keywords])
+    calls = [x for x in it.events if x['tag'] == 'call' and x['callee'] == TS and x['where'] is not None and x['where'].qualname == JS]
+    ok = False
+    for x in calls:
+        args = list(x['args']) + list(x['kwargs'].values())
+        ok = ok or any(a is not None and a.is_param and a.is_param.endswith(':n_parts') for a in args)
     ctx.ob('R3', fi, 'self.transitions.split(n_parts)', True if ok else None, 'jumps re-derived from the transition parts')
 
 
+# --------------------------------------------------------------------------------------------------- Trajectory.split
 def check_traj_split(ctx):
     fi = ctx.fn(TRS)
-    env = {}
-    for n in ast.walk(fi.node):
-        if isinstance(n, ast.Assign) and len(n.targets) == 1 and isinstance(n.targets[0], ast.Name):
-            env.setdefault(n.targets[0].id, n.value)
-    comps = [n for n in ast.walk(fi.node) if isinstance(n, ast.ListComp)]
-    main = None
-    for c in comps:
-        g = c.generators[0]
-        if isinstance(g.iter, ast.Call) and norm_text(g.iter.func).endswith('pairwise'):
-            main = c
-    if main is None:
-        ctx.ob('R4', fi, 'parts', None, 'parts over pairwise(interval) not recognised')
-        return
-    g = main.generators[0]
-    a, b = (norm_text(e) for e in g.target.elts)
-    t = norm_text(main.elt).replace(' ', '')
-    ok = t == f'self[{a}:{b}]'
-    ctx.ob('R4', fi, main.elt, True if ok else (False if t in (f'self[{b}:{a}]', f'self[{a}:{b}+1]', f'self[{a}:]') else None),
-           'consecutive, non-overlapping frame ranges' if ok else 'frame ranges overlap / are not the consecutive pairs of the edge sequence')
-    seq = env.get(norm_text(g.iter.args[0]))
-    if isinstance(seq, ast.Call) and norm_text(seq.func).endswith('linspace'):
-        lo = seq.args[0]
-        dt = next((k.value for k in seq.keywords if k.arg == 'dtype'), None)
-        cnt = linear(seq.args[2]) if len(seq.args) > 2 else None
-        ok = isinstance(lo, ast.Constant) and lo.value == 0 and dt is not None and norm_text(dt) == 'int' and cnt is not None \
-            and cnt[0] == {'n_parts': 1} and cnt[1] == 1
-        ctx.ob('R4', fi, seq, True if ok else None, 'n_parts + 1 non-decreasing integer edges from 0' if ok else 'edge sequence not recognised')
-    else:
-        ctx.ob('R4', fi, 'interval', None, 'edge sequence is not np.linspace')
-    eq_if = [n for n in ast.walk(fi.node) if isinstance(n, ast.If) and 'equal_parts' in norm_text(n.test)]
-    for blk in eq_if:
-        names = set()
-        lens = False
-        for b_ in blk.body:
-            for w in ast.walk(b_):
-                if isinstance(w, ast.Assign) and any(isinstance(t, ast.Name) and t.id == 'minsize' for t in w.targets):
-                    # names feeding the value, and the iteration space of enclosing loops
-                    names |= {x.id for x in ast.walk(w.value) if isinstance(x, ast.Name)}
-                    lens = lens or any(isinstance(x, ast.Call) and isinstance(x.func, ast.Name) and x.func.id == 'len' and x.args
-                                       and norm_text(x.args[0]) != 'self' for x in ast.walk(w.value))
-            if isinstance(b_, ast.For) and any(isinstance(w, ast.Assign) and any(isinstance(t, ast.Name) and t.id == 'minsize' for t in w.targets) for w in ast.walk(b_)):
-                names |= {x.id for x in ast.walk(b_.iter) if isinstance(x, ast.Name)}
-        derived = bool(names & {norm_text(g.iter.args[0]), 'subtrajectories'}) or lens
-        has_min = any(isinstance(w, ast.Call) and norm_text(w.func).split('.')[-1] in ('min', 'amin') for b_ in blk.body for w in ast.walk(b_))
-        if derived and not has_min:
-            ctx.ob('R4', fi, 'minsize', False, 'the trim length is the size of one particular part, not the minimum over all parts: when another part is '
-                                               'shorter the "equal" parts have unequal lengths')
+    it = ctx.entry(TRS)
+    inside = under(TRS)
+    # slices of the trajectory itself
+    cuts = []
+    trims = []
+    seen = set()
+    for e in it.events:
+        if e['tag'] != 'call' or e['callee'] != f'{TRAJ}.__getitem__' or not inside(e) or id(e['node']) in seen:
             continue
-        ctx.ob('R4', fi, 'minsize', derived, 'trim length = size of the smallest actual part' if derived else
-               'the trim length is computed from len(self) and n_parts only, not from the actual frame ranges: the parts cut from the edge '
-               'sequence can be shorter, so "equal parts" come out with unequal lengths')
-    trims = [n for n in comps if n is not main]
-    for n in trims:
-        t = norm_text(n.elt).replace(' ', '')
-        ok = t.endswith('[0:minsize]') or t.endswith('[:minsize]')
-        ctx.ob('R4', fi, n.elt, True if ok else None, 'equal parts: each part trimmed to the smallest size from its start')
+        seen.add(id(e['node']))
+        sl = e['args'][0] if e['args'] else None
+        recv = e['bound']
+        if sl is None or sl.ty != 'slice':
+            continue
+        if recv is not None and recv.symbolic:
+            cuts.append((e, sl))
+        else:
+            trims.append((e, sl))
+    if not cuts:
+        ctx.ob('R4', fi, 'parts', None, 'slices self[start:stop] of the trajectory not recognised')
+        return
+    seq = None
+    for e, sl in cuts:
+        lo, hi = sl.lo, sl.hi
+        ok = lo is not None and hi is not None and lo.pair_pos == 0 and hi.pair_pos == 1 and lo.pair_src is not None and lo.pair_src == hi.pair_src \
+            and sl.step is None
+        bad = lo is not None and hi is not None and ((lo.pair_pos == 1 and hi.pair_pos == 0) or (lo.pair_pos == 0 and hi.bin is not None)
+                                                     or (lo.pair_pos == 0 and sl.hi is None))
+        if lo is not None and lo.pair_pos == 0 and hi is None:
+            bad = True
+        ctx.ob('R4', e['where'], e['node'], True if ok else (False if bad else None),
+               'consecutive, non-overlapping frame ranges' if ok else 'frame ranges overlap / are not the consecutive pairs of the edge sequence')
+        if ok:
+            seq = lo.pair_seq
+    if seq is not None and seq.linspace is not None and len(seq.linspace) >= 2 and seq.lin_n is not None:
+        lo, n = seq.linspace[0], seq.lin_n
+        n_l = _lin(n)
+        ok = has_const(lo) and cval(lo) == 0 and seq.dtype == 'int' and n_l is not None and n_l[0] == {'n_parts': 1.0} and n_l[1] == 1
+        ctx.ob('R4', fi, 'edge sequence', True if ok else None, 'n_parts + 1 non-decreasing integer edges from 0' if ok else 'edge sequence not recognised')
+    else:
+        ctx.ob('R4', fi, 'edge sequence', None, 'edge sequence is not np.linspace')
+    # equal parts: every part trimmed from its start to the size of the smallest actual part
+    for e, sl in trims:
+        lo, hi = sl.lo, sl.hi
+        from_start = lo is None or (has_const(lo) and cval(lo) == 0)
+        if hi is None or not from_start:
+            ctx.ob('R4', e['where'], e['node'], None, 'trim of the parts not recognised')
+            continue
+        derived = hi.minwidth is not None or (hi.lenof is not None and hi.lenof.ty == 'obj' and not hi.lenof.symbolic and hi.minmax is not None)
+        one_part = hi.pair_width is not None or (hi.lenof is not None and hi.lenof.ty == 'obj' and not hi.lenof.symbolic and hi.minmax is None)
+        if derived:
+            ctx.ob('R4', e['where'], e['node'], True, 'equal parts: each part trimmed from its start to the size of the smallest actual part')
+        elif one_part:
+            ctx.ob('R4', e['where'], e['node'], False, 'the trim length is the size of one particular part, not the minimum over all parts: when another part is '
+                                                       'shorter the "equal" parts have unequal lengths')
+        else:
+            l_ = _lin(hi)
+            only_len = l_ is not None and set(l_[0]) <= {'len(self)', 'n_parts'} or (hi.sx is not None and 'len(self)' in hi.sx and 'min' not in hi.sx)
+            ctx.ob('R4', e['where'], e['node'], False if only_len else None,
+                   'the trim length is computed from len(self) and n_parts only, not from the actual frame ranges: the parts cut from the edge '
+                   'sequence can be shorter, so "equal parts" come out with unequal lengths' if only_len else 'origin of the trim length not derivable')
